@@ -533,6 +533,8 @@ class _ExtendedTypeFetcher(Thread):
 
         self.request_queue = Queue()
         self._cf.add_port_callback(CRTPPort.PARAM, self._new_packet_cb)
+        # Stop fetching if the link is lost or closed before we are done
+        self._cf.disconnected.add_callback(self._disconnected)
         self._should_close = False
         self._req_param = -1
         self._count = -1
@@ -570,7 +572,19 @@ class _ExtendedTypeFetcher(Thread):
             pk.data = struct.pack('<BH', MISC_GET_EXTENDED_TYPE, element.ident)
             self.request_queue.put(pk)
 
+    def _disconnected(self, link_uri):
+        """The link was lost or closed while fetching, abort"""
+        self._req_param = -1
+        self._close()
+
     def _close(self):
+        # We are done, or the fetching was aborted: stop listening
+        self._cf.remove_port_callback(CRTPPort.PARAM, self._new_packet_cb)
+        try:
+            self._cf.disconnected.remove_callback(self._disconnected)
+        except ValueError:
+            pass
+
         # First empty the queue from all packets
         try:
             while True:
